@@ -16,11 +16,11 @@ open H4.Attr H4.Gen.Attr
 
 theorem tables : ntSize DFNT_CHAR = some 1 ∧ unmap DFNT_CHAR = some NC_CHAR := by decide
 
-/-- **decodeAttrs ∘ encodeAttrs = id** on storable attributes (name ≤ VSNAMELENMAX, value of `count * size` bytes,
-    not one of the char-like types other than DFNT_CHAR). -/
+/-- **decodeAttrs ∘ encodeAttrs = id** on storable attributes (name ≤ VSNAMELENMAX, at least one value, value of
+    `count * size` bytes) — for EVERY number type, including the character types other than DFNT_CHAR. -/
 theorem decode_encode_attr (a : Attr) (h : Storable a = true) : decodeAttr (encodeAttr a) = a := by
-  simp only [Storable, Bool.and_eq_true, decide_eq_true_eq, Bool.or_eq_true, beq_iff_eq, bne_iff_ne, ne_eq] at h
-  obtain ⟨⟨hname, hval⟩, hty⟩ := h
+  simp only [Storable, Bool.and_eq_true, decide_eq_true_eq] at h
+  obtain ⟨⟨hname, hpos⟩, hval⟩ := h
   have htake : a.name.take VSNAMELENMAX = a.name := List.take_of_length_le hname
   cases hs : ntSize a.nt with
   | none => simp [hs] at hval
@@ -29,17 +29,24 @@ theorem decode_encode_attr (a : Attr) (h : Storable a = true) : decodeAttr (enco
     by_cases hc : a.nt = DFNT_CHAR
     · have hsz : sz = 1 := by rw [hc, tables.1] at hs; cases hs; rfl
       subst hsz
-      simp only [encodeAttr, hc, if_true, decodeAttr, tables.2, tables.1, Option.getD_some, Nat.mul_one, htake]
+      have hcond : unmap DFNT_CHAR = some NC_CHAR ∧ (a.count > 1 ∨ 1 ≤ 1) := ⟨tables.2, Or.inr (Nat.le_refl 1)⟩
+      simp only [encodeAttr, hc, if_true, decodeAttr, hcond, and_self, tables.1, Option.getD_some, Nat.mul_one, htake]
       have : a.val.take a.count = a.val := List.take_of_length_le (by omega)
       rw [this]
       cases a; simp_all
-    · have hu : unmap a.nt ≠ some NC_CHAR := by
-        rcases hty with h | h
-        · exact absurd h hc
-        · exact h
-      simp only [encodeAttr, hc, if_false, decodeAttr, hu, hs, Option.getD_some, Nat.mul_one, htake]
-      have : a.val.take (a.count * sz) = a.val := List.take_of_length_le (by omega)
-      rw [this]
+    · simp only [encodeAttr, hc, if_false, decodeAttr, hs, Option.getD_some, Nat.mul_one, htake]
+      by_cases hcond : unmap a.nt = some NC_CHAR ∧ (1 > 1 ∨ a.count ≤ 1)
+      · have hc1 : a.count = 1 := by
+          rcases hcond.2 with h | h
+          · omega
+          · omega
+        simp only [hcond, and_self, if_true]
+        have : a.val.take (1 * sz) = a.val := List.take_of_length_le (by rw [hval, hc1]; exact Nat.le_refl _)
+        rw [this]
+        cases a; simp_all
+      · simp only [hcond, if_false]
+        have : a.val.take (a.count * sz) = a.val := List.take_of_length_le (by omega)
+        rw [this]
 
 theorem decode_encode_attrs (l : AList) (h : ∀ a ∈ l, Storable a = true) : decodeAttrs (encodeAttrs l) = l := by
   induction l with
@@ -53,9 +60,10 @@ theorem decode_encode_attrs (l : AList) (h : ∀ a ∈ l, Storable a = true) : d
 example : Storable ⟨[117, 110, 105, 116, 115], DFNT_CHAR, 3, [109, 47, 115]⟩ = true := by decide
 example : Storable ⟨[120], 22, 2, [1, 2, 3, 4]⟩ = true := by decide
 
-/-- the three ways in which the code as it is loses attribute metadata in the disk form (known findings) -/
-example : decodeAttrs (encodeAttrs [⟨[97], DFNT_UCHAR, 5, [1, 2, 3, 4, 5]⟩]) = [⟨[97], DFNT_UCHAR, 1, [1]⟩] := by decide
-example : decodeAttrs (encodeAttrs [⟨[97], DFNT_CHAR + DFNT_LITEND, 3, [1, 2, 3]⟩]) = [⟨[97], DFNT_CHAR + DFNT_LITEND, 1, [1]⟩] := by decide
+/-- the character types other than DFNT_CHAR keep their count (they lost it before the reader was repaired) -/
+example : decodeAttrs (encodeAttrs [⟨[97], DFNT_UCHAR, 5, [1, 2, 3, 4, 5]⟩]) = [⟨[97], DFNT_UCHAR, 5, [1, 2, 3, 4, 5]⟩] := by decide
+example : decodeAttrs (encodeAttrs [⟨[97], DFNT_CHAR + DFNT_LITEND, 3, [1, 2, 3]⟩]) = [⟨[97], DFNT_CHAR + DFNT_LITEND, 3, [1, 2, 3]⟩] := by decide
+/-- a name that does not fit a Vdata name would still be cut by the disk form: `SDsetattr` refuses it (`sd_setattr_is_put`) -/
 example : ((decodeAttrs (encodeAttrs [⟨List.replicate 65 120, 24, 1, [0, 0, 0, 1]⟩])).map (·.name.length)) = [64] := by decide
 
 /-! ## name / index / reference tables -/
@@ -409,8 +417,8 @@ example : (AttrSD.sdiPutAll [] (datastrsPuts (some [84]) none (some []) (some [7
 open H4.AttrSD in
 /-- `SDsetattr` on the file object: argument checks, then exactly `put .sd` on the global list (`NC_HDIRTY` on success) -/
 theorem sd_setattr_is_put (f : File) (name : Bytes) (nt : Nat) (count : Int) (val : Bytes)
-    (hopen : f.isOpen = true) (hnat : nt / DFNT_NATIVE % 2 = 0) (hargs : argsOk nt count = true)
-    (hname : name.length ≤ H4_MAX_NC_NAME) :
+    (hopen : f.isOpen = true) (hrw : f.rdwr = true) (hnat : nt / DFNT_NATIVE % 2 = 0) (hargs : argsOk nt count = true)
+    (hname : name.length ≤ VSNAMELENMAX) :
     sdSetAttr f .file name nt count val =
       match put .sd f.gattrs ⟨name, nt, count.toNat, val⟩ with
       | some l' => ({ f with gattrs := l', dirty := true }, .ok)
@@ -455,89 +463,119 @@ theorem sd_setattr_is_put (f : File) (name : Bytes) (nt : Nat) (count : Int) (va
             simp only [beq_iff_eq] at hl
             omega
           · cases hs
+  have hle : VSNAMELENMAX ≤ H4_MAX_NC_NAME := by decide
   have h1 : ¬ name.length > H4_MAX_NC_NAME := by omega
+  have h2 : ¬ name.length > VSNAMELENMAX := by omega
   have h0 : (nt / DFNT_NATIVE % 2 == 1) = false := by simp [hnat]
-  simp only [sdSetAttr, hopen, Bool.not_true, Bool.false_eq_true, if_false, h0, hargs, apFromId, attrsAt, sdiPut,
-    h1, hun, setAttrsAt]
+  simp only [sdSetAttr, hopen, hrw, Bool.not_true, Bool.false_eq_true, if_false, h0, hargs, apFromId, attrsAt, sdiPut,
+    h1, h2, hun, setAttrsAt]
   cases put .sd f.gattrs ⟨name, nt, count.toNat, val⟩ <;> rfl
+
+open H4.AttrSD in
+/-- what `SDsetattr` refuses outright, leaving the state as it was: a file opened read-only (SDend would drop the change
+    silently) and a name that a Vdata name cannot hold (it would come back truncated) -/
+theorem sd_setattr_refuses (f : File) (name : Bytes) (nt : Nat) (count : Int) (val : Bytes)
+    (h : f.rdwr = false ∨ VSNAMELENMAX < name.length) :
+    sdSetAttr f .file name nt count val = (f, .fail) := by
+  simp only [sdSetAttr, apFromId]
+  split
+  · rfl
+  · split
+    · rfl
+    · split
+      · rfl
+      · rcases h with h | h
+        · by_cases hn : name.length > VSNAMELENMAX <;> simp [hn, h]
+        · simp [h]
 
 open H4.AttrGR in
 theorem views_set (l : List GAttr) (i : Nat) (g : GAttr) : views (l.set i g) = (views l).set i g.view := by
   simp [views, List.map_set]
 
 open H4.AttrGR in
-/-- **GR refines the list machine**: whenever `GRsetattr` succeeds, what the API then shows is `put .gr` applied to what it
-    showed before (value of `count * size` bytes). -/
-theorem gr_put_refines (w : Bool) (l l' : List GAttr) (name : Bytes) (nt : Nat) (count : Int) (val : Bytes)
-    (hval : val.length = count.toNat * (ntSize nt).getD 0)
-    (h : grPut w l name nt count val = some l') :
-    put .gr (views l) ⟨name, nt, count.toNat, val⟩ = some (views l') := by
-  unfold grPut at h
-  split at h
-  · cases h
-  · simp only at h
-    cases hf : find name (views l) with
-    | some i =>
-      rw [hf] at h
-      simp only at h
-      have hi := find_lt hf
-      have hil : i < l.length := by simpa [views] using hi
-      have hgd : (views l).getD i default = (l.getD i default).view := by
+/-- **GR is the list machine**: for legal arguments (known type, count within the Vdata limits, a name that fits a field
+    name, value of `count * size` bytes) `GRsetattr` on a writable file succeeds exactly when `put .gr` does, and what the
+    API then shows is the result of `put .gr` — whether the value is cached or written straight to its Vdata, and
+    whether or not the attribute had been written before. -/
+theorem gr_put_refines (l : List GAttr) (name : Bytes) (nt : Nat) (count : Int) (val : Bytes)
+    (hargs : argsOk nt count = true) (hname : name.length ≤ FIELDNAMELENMAX)
+    (hval : val.length = count.toNat * (ntSize nt).getD 0) :
+    (grPut l name nt count val).map views = put .gr (views l) ⟨name, nt, count.toNat, val⟩ := by
+  have hn : ¬ name.length > FIELDNAMELENMAX := by omega
+  simp only [grPut, hargs, Bool.not_true, Bool.false_eq_true, if_false, hn]
+  cases hf : find name (views l) with
+  | some i =>
+    simp only
+    have hi := find_lt hf
+    have hil : i < l.length := by simpa [views] using hi
+    have hgd : (views l).getD i default = (l.getD i default).view := by
+      simp [views, List.getD_eq_getElem?_getD, hil]
+    obtain ⟨b, hb, hbn⟩ := find_name hf
+    have hname' : (l.getD i default).name = name := by
+      have : (views l)[i]? = some (l.getD i default).view := by
         simp [views, List.getD_eq_getElem?_getD, hil]
-      split at h
-      · cases h
-      · rename_i hnt
-        have hnt' : (l.getD i default).nt = nt := by
-          have : ¬ (nt != (l.getD i default).nt) = true := hnt
-          simp only [bne_iff_ne, ne_eq, Decidable.not_not] at this
-          exact this.symm
-        have hcompat : compatible .gr ((views l).getD i default) ⟨name, nt, count.toNat, val⟩ = true := by
-          have hnt3 : (l[i]?.getD default).nt = nt := by simpa [List.getD_eq_getElem?_getD] using hnt'
-          rw [hgd]; simp [compatible, GAttr.view, hnt3]
-        obtain ⟨b, hb, hbn⟩ := find_name hf
-        have hname : (l.getD i default).name = name := by
-          have : (views l)[i]? = some (l.getD i default).view := by
-            simp [views, List.getD_eq_getElem?_getD, hil]
-          rw [this] at hb; cases hb; simpa [GAttr.view] using hbn
-        rw [put_found (by simpa using hf), hcompat]
-        simp only [if_true, Option.some.injEq]
-        have hname2 : (l[i]?.getD default).name = name := by simpa [List.getD_eq_getElem?_getD] using hname
-        have hnt2 : (l[i]?.getD default).nt = nt := by simpa [List.getD_eq_getElem?_getD] using hnt'
-        split at h
-        · split at h
-          · cases h
-          · split at h
-            · cases h
-            · cases h
-              rw [views_set]
-              congr 1
-              simp only [GAttr.view, overwrite, hname, hnt', Option.getD_some]
-              congr 1
-              rw [← hval]; simp
-        · cases h
-          rw [views_set]
-          congr 1
-          simp [GAttr.view, hname2, hnt2]
-    | none =>
-      rw [hf] at h
-      simp only at h
-      rw [put_new (by simpa using hf)]
-      simp only [room, if_true, Option.some.injEq]
-      split at h
-      · cases h; simp [views, GAttr.view]
-      · split at h
-        · cases h
-        · cases h
-          simp only [views, List.map_append, List.map_cons, List.map_nil, GAttr.view, Option.getD_some]
-          congr 2
-          simp only [Attr.mk.injEq, true_and]
-          rw [← hval]; simp
+      rw [this] at hb; cases hb; simpa [GAttr.view] using hbn
+    rw [put_found (by simpa using hf), hgd]
+    generalize l.getD i default = g at hname' ⊢
+    by_cases hnt : nt = g.nt
+    · have h1 : (nt != g.nt) = false := by simp [hnt]
+      have hc : compatible .gr g.view ⟨name, nt, count.toNat, val⟩ = true := by
+        simp [compatible, GAttr.view, hnt]
+      simp only [h1, Bool.false_eq_true, if_false, hc, if_true]
+      split
+      · simp only [Option.map_some, views_set, Option.some.injEq]
+        congr 1
+        simp only [GAttr.view, hname', ← hnt, Option.getD_some]
+        congr 1
+        have ht : List.take (count.toNat * (ntSize nt).getD 0) val = val := by rw [← hval]; simp
+        cases g.disk with
+        | none => simpa [overwrite] using ht
+        | some d => simp [overwrite, ← hval]
+      · simp only [Option.map_some, views_set, Option.some.injEq]
+        congr 1
+        simp [GAttr.view, hname', ← hnt]
+    · have h1 : (nt != g.nt) = true := by simp [hnt]
+      have hc : compatible .gr g.view ⟨name, nt, count.toNat, val⟩ = false := by
+        simp only [compatible, GAttr.view, beq_eq_false_iff_ne, ne_eq]
+        exact fun e => hnt e.symm
+      simp [h1, hc]
+  | none =>
+    simp only
+    rw [put_new (by simpa using hf)]
+    simp only [room, if_true]
+    split
+    · simp [views, GAttr.view]
+    · simp only [Option.map_some, views, List.map_append, List.map_cons, List.map_nil, GAttr.view, Option.getD_some,
+        Option.some.injEq]
+      congr 2
+      simp only [Attr.mk.injEq, true_and]
+      rw [← hval]; simp
 
 open H4.AttrGR in
-/-- the exact extra failures of GRsetattr with respect to the list rule (known finding `gr-setattr-grow-of-unwritten-attr-fails`
-    and the read-only cases): an existing, never written attribute re-set above the threshold -/
-example : grPut true [⟨[97], 20, 10, some (List.replicate 10 0), none, true, true⟩] [97] 20 3000 (List.replicate 3000 0) = none := by
+/-- an attribute set earlier in the session and only cached so far can now be re-set above the caching threshold
+    (it FAILed before the repair) -/
+example : (grPut [⟨[97], 20, 10, some (List.replicate 10 0), none, true, true⟩] [97] 20 3000 (List.replicate 3000 0)).isSome = true := by
   decide
+
+open H4.AttrGR in
+/-- `GRsetattr` refuses a file opened read-only and a name that a Vdata field name cannot hold -/
+theorem gr_setattr_refuses (f : File) (o : Option Nat) (name : Bytes) (nt : Nat) (count : Int) (val : Bytes)
+    (h : f.writable = false ∨ FIELDNAMELENMAX < name.length) :
+    grSetAttr f o name nt count val = (f, .fail) := by
+  simp only [grSetAttr]
+  split
+  · rfl
+  · split
+    · rfl
+    · rcases h with h | h
+      · simp [h]
+      · have : grPut ‹_› name nt count val = none := by
+          simp only [grPut]; split
+          · rfl
+          · simp [h]
+        split
+        · rfl
+        · simp [this]
 
 /-! ### Vdata / field attributes: one tagged list, independent per-field views -/
 
@@ -609,15 +647,16 @@ theorem posOf_go_spec (fx : Int) (l : List (Int × Attr)) (k pos : Nat) (p : Nat
       · simp only [h3, Bool.false_eq_true, if_false]; exact this
 
 open H4.AttrVS in
-/-- **VS refines the list machine, field by field**: for names that fit a Vdata name, a successful `VSsetattr` on field `fx`
-    is `put .vs` on the attributes of that field, and the attributes of every other field (and of the Vdata itself)
-    are untouched — the per-field namespaces are independent although the C keeps one list. -/
-theorem vs_put_refines_partial (al al' : List (Int × Attr)) (fx : Int) (a : Attr) (count : Int)
-    (hshort : a.name.length ≤ VSNAMELENMAX)
+/-- **VS refines the list machine, field by field** (no restriction on the name any more): a successful `VSsetattr` on
+    field `fx` is `put .vs`, on the attributes of that field, of the attribute as it is stored (name cut to
+    VSNAMELENMAX — lookups compare names the same way, so a long name is found again and never duplicated), and the
+    attributes of every other field (and of the Vdata itself) are untouched: the per-field namespaces are independent
+    although the C keeps one list. -/
+theorem vs_put_refines (al al' : List (Int × Attr)) (fx : Int) (a : Attr) (count : Int)
     (h : vsPut al fx a count = some al') :
-    put .vs (view al fx) a = some (view al' fx) ∧ ∀ g, g ≠ fx → view al' g = view al g := by
+    put .vs (view al fx) (stored a) = some (view al' fx) ∧ ∀ g, g ≠ fx → view al' g = view al g := by
   unfold vsPut at h
-  cases hf : find a.name (view al fx) with
+  cases hf : find (stored a).name (view al fx) with
   | some k =>
     rw [hf] at h
     simp only at h
@@ -634,16 +673,18 @@ theorem vs_put_refines_partial (al al' : List (Int × Attr)) (fx : Int) (a : Att
         obtain ⟨q, hpq, _, _, hv⟩ := posOf_go_spec fx al k 0 p hp
         have hpq' : p = q := by omega
         subst hpq'
-        have hax : ({ a with name := b.name } : Attr) = a := by
-          cases a; simp only [Attr.mk.injEq, and_true]; exact hbn
+        have hax : ({ a with name := b.name } : Attr) = stored a := by
+          simp only [stored] at hbn ⊢
+          rw [hbn]
         rw [hax]
+        have hc' : compatible .vs b (stored a) = true := by simpa [compatible, stored] using hc
         constructor
-        · rw [put_found hf, hgd, hc]
+        · rw [put_found hf, hgd, hc']
           simp only [if_true, Option.some.injEq]
-          have := hv a fx
+          have := hv (stored a) fx
           simpa using this.symm
         · intro g hg
-          have := hv a g
+          have := hv (stored a) g
           simpa [hg] using this
     · cases h
   | none =>
@@ -651,21 +692,16 @@ theorem vs_put_refines_partial (al al' : List (Int × Attr)) (fx : Int) (a : Att
     simp only at h
     split at h
     · cases h
-      have hst : stored a = a := by
-        simp only [stored]
-        have : a.name.take VSNAMELENMAX = a.name := List.take_of_length_le hshort
-        rw [this]
-      rw [hst]
       constructor
       · rw [put_new hf]; simp [room, view_append]
       · intro g hg; simp [view_append, hg]
     · cases h
 
 open H4.AttrVS in
-/-- the known finding behind the hypothesis: a name of 65 characters is stored with 64, is never found again, and a second
-    set creates a second attribute with the same stored name -/
-example : (vgPut [] ⟨List.replicate 65 107, 20, 1, [1]⟩ 1).bind (fun l => (vgPut l ⟨List.replicate 65 107, 20, 1, [2]⟩ 1).map (·.map (·.name.length)))
-    = some [64, 64] := by decide
+/-- a name of 65 characters is stored with 64, found again under the long name, and a second set REPLACES the value
+    (before the repair it was never found again and every set added a duplicate) -/
+example : (vgPut [] ⟨List.replicate 65 107, 20, 1, [1]⟩ 1).bind (fun l => (vgPut l ⟨List.replicate 65 107, 20, 1, [2]⟩ 1).map (·.map (fun x => (x.name.length, x.val))))
+    = some [(64, [2])] := by decide
 
 /-! ## what survives close and reopen -/
 
@@ -692,32 +728,49 @@ theorem mapM_option_spec {α β : Type} (f : α → Option β) (l : List α) (l'
         | succ j => simp at hx; obtain ⟨y', hy', hfy⟩ := h2 j x hx; exact ⟨y', by simpa using hy', hfy⟩
 
 open H4.AttrSD in
-/-- **sd_attrs_survive_reopen_partial**: whatever the history that led to the in-memory state `f`, if `SDend` can write it
-    (`save f = some d`), then after `SDstart` the file has the same number of datasets in the same order, each with the
-    same name, number type, kind, reference number, and — provided every attribute is `Storable` — exactly the same
-    attribute list (names, types, counts, values, indices); likewise the file attributes.
-    `Storable` excludes the known findings: names longer than VSNAMELENMAX and the char-like types other than DFNT_CHAR. -/
-theorem sd_attrs_survive_reopen_partial (f : File) (d : Disk) (h : save f = some d) :
+/-- **sd_attrs_survive_reopen**: whatever the history that led to the in-memory state `f`, if `SDend` can write it
+    (`save f = some d`), then after `SDstart` the file has the same number of variables in the same order, each with the
+    same number type, kind, reference number and scale data; every dataset keeps its name (a coordinate variable follows
+    the name of its dimension); and every attribute list whose entries are `Storable` — name ≤ VSNAMELENMAX, value of
+    `count * size` bytes, which is all `SDsetattr` and the predefined setters ever store — comes back exactly
+    (names, types, counts, values, indices), for every number type; likewise the file attributes. -/
+theorem sd_attrs_survive_reopen (f : File) (d : Disk) (h : save f = some d) :
     (openF { f with disk := d } true).vars.length = f.vars.length ∧
     (∀ (i : Nat) (v : Var), f.vars[i]? = some v → ∃ v' : Var, (openF { f with disk := d } true).vars[i]? = some v' ∧
-        v'.name = v.name ∧ v'.hdftype = v.hdftype ∧ v'.vtype = v.vtype ∧ v'.ref = v.ref ∧ v'.hasData = v.hasData ∧
-        v'.scale = v.scale ∧ ((∀ a ∈ v.attrs, Storable a = true) → v'.attrs = v.attrs)) ∧
+        (v.vtype ≠ IS_CRDVAR → v'.name = v.name) ∧ v'.hdftype = v.hdftype ∧ v'.vtype = v.vtype ∧ v'.ref = v.ref ∧
+        v'.hasData = v.hasData ∧ v'.scale = v.scale ∧ ((∀ a ∈ v.attrs, Storable a = true) → v'.attrs = v.attrs)) ∧
     ((∀ a ∈ f.gattrs, Storable a = true) → (openF { f with disk := d } true).gattrs = f.gattrs) := by
   simp only [save, Option.bind_eq_bind] at h
   obtain ⟨vs, hm, hd⟩ := Option.bind_eq_some_iff.mp h
   simp only [Option.some.injEq] at hd
   subst hd
   obtain ⟨hlen, hpt⟩ := mapM_option_spec _ _ _ hm
-  refine ⟨by simp [openF, hlen], ?_, ?_⟩
+  refine ⟨by simp [openF, hlen, renameCoordVars], ?_, ?_⟩
   · intro i v hv
-    obtain ⟨v', hv', hsv⟩ := hpt i v hv
+    -- the variable as `hdf_write_dim` may have renamed it
+    obtain ⟨w, hw, hwv⟩ : ∃ w : Var, (renameCoordVars f.slots (f.slots.map fun o => f.objs.getD o default)
+        (saveDims (f.slots.map fun o => f.objs.getD o default)).2 f.vars)[i]? = some w ∧
+        (v.vtype ≠ IS_CRDVAR → w.name = v.name) ∧ w.hdftype = v.hdftype ∧ w.vtype = v.vtype ∧ w.ref = v.ref ∧
+        w.hasData = v.hasData ∧ w.scale = v.scale ∧ w.attrs = v.attrs ∧ w.dims = v.dims := by
+      simp only [renameCoordVars, List.getElem?_map, hv, Option.map_some]
+      refine ⟨_, rfl, ?_⟩
+      split
+      · split
+        · rename_i hc
+          simp only [Bool.and_eq_true, beq_iff_eq] at hc
+          refine ⟨fun hne => absurd hc.1.1.1 hne, rfl, rfl, rfl, rfl, rfl, rfl, rfl⟩
+        · exact ⟨fun _ => rfl, rfl, rfl, rfl, rfl, rfl, rfl, rfl⟩
+      · exact ⟨fun _ => rfl, rfl, rfl, rfl, rfl, rfl, rfl, rfl⟩
+    obtain ⟨v', hv', hsv⟩ := hpt i w hw
     refine ⟨v', by simpa [openF] using hv', ?_⟩
     simp only [saveVar, Option.bind_eq_bind] at hsv
     obtain ⟨ds, _, hds⟩ := Option.bind_eq_some_iff.mp hsv
     simp only [Option.some.injEq] at hds
     subst hds
-    refine ⟨rfl, rfl, rfl, rfl, rfl, rfl, ?_⟩
+    obtain ⟨h1, h2, h3, h4, h5, h6, h7, _⟩ := hwv
+    refine ⟨h1, h2, h3, h4, h5, h6, ?_⟩
     intro hst
+    simp only [h7]
     exact decode_encode_attrs v.attrs hst
   · intro hst
     simp only [openF]
@@ -733,10 +786,14 @@ def orphanWitness : AttrSD.File :=
     vars := [⟨[118, 48], 20, [0, 1], [], IS_SDSVAR, 2, false, []⟩, ⟨[118, 49], 20, [2, 3], [], IS_SDSVAR, 3, false, []⟩,
              ⟨fdName 3, 5, [3], [⟨nLongName, DFNT_CHAR, 1, [108]⟩], IS_CRDVAR, 4, false, []⟩] }
 
-/-- witness of the known finding `sd-fakedim-renumber-orphans-coordvar`: after save/load that dimension is called
-    "fakeDim2" while the coordinate variable is still called "fakeDim3": its attributes are no longer the dimension's. -/
-example : (AttrSD.save orphanWitness).map (fun d => (d.dims.map (·.name), d.vars.map (·.dims), d.vars.map (·.name)))
-    = some ([[120], fdName 1, fdName 2], [[0, 1], [0, 2], [2]], [[118, 48], [118, 49], fdName 3]) := by
+/-- after save/load that dimension is called "fakeDim2" — and so is its coordinate variable, which keeps its attribute
+    (before the repair the variable stayed "fakeDim3" and the dimension lost its metadata) -/
+example : (AttrSD.save orphanWitness).map (fun d => (d.dims.map (·.name), d.vars.map (·.dims), d.vars.map (·.name), d.vars.map (·.attrs.length)))
+    = some ([[120], fdName 1, fdName 2], [[0, 1], [0, 2], [2]], [[118, 48], [118, 49], fdName 2], [0, 0, 1]) := by
+  decide
+
+/-- a user's dimension name that merely starts with "fakeDim" is no longer renumbered -/
+example : (AttrSD.saveDims [⟨nFakeDim ++ [101, 110], 2⟩, ⟨fdName 7, 3⟩]).1.map (·.name) = [nFakeDim ++ [101, 110], fdName 1] := by
   decide
 
 open H4.AttrGR in
